@@ -260,6 +260,45 @@ func runC15(c *fw.Ctx) {
 			c15ForEach(c, r, ac, i%3 != 0)
 		})
 	}
+	// rendezvous: the callbacks meet at a barrier, i.e. each waits until all n have started. Worker goroutines may be
+	// delayed relative to each other in any way, so this is a legal schedule: it needs all n callbacks in flight at once
+	c.Cases("foreach-async-rendezvous", c.N(30, 1500), false, func(i int, r *rng.R) {
+		n := []int{2, 3, 5, 8, 17, 33, 64, 100}[r.Intn(8)]
+		procs := []int{1, 1, 2, 4, 16}[r.Intn(5)]
+		onList := r.Bool()
+		in := func() string {
+			return fmt.Sprintf("ForEachAsync (list=%v) over %d elements at GOMAXPROCS=%d where every callback waits until all %d callbacks have started", onList, n, procs, n)
+		}
+		watchedFor(c, 25*time.Second, in, func() {
+			runtime.GOMAXPROCS(procs)
+			setHookTable(nil)
+			var started int64
+			all := make(chan struct{})
+			var once sync.Once
+			body := func() {
+				if atomic.AddInt64(&started, 1) == int64(n) {
+					once.Do(func() { close(all) })
+				}
+				<-all
+			}
+			if onList {
+				vals := make([]any, n)
+				for j := range vals {
+					vals[j] = j
+				}
+				at.NewList(vals...).ForEachAsync(func(int, any) { body() })
+			} else {
+				o := at.NewObject()
+				for j := 0; j < n; j++ {
+					o.Set(fmt.Sprintf("k%d", j), j)
+				}
+				o.ForEachAsync(func(string, any) { body() })
+			}
+			c.Count("rendezvous_calls")
+			c.Max("max_simultaneously_active_callbacks", int64(n))
+			c.DistinctHash(spec.Hash(in()))
+		})
+	})
 	// (2) MapAsync == Map for pure functions (incl. functions that map nested containers asynchronously themselves)
 	c.Cases("map-async", c.N(200, 40000), false, func(i int, r *rng.R) {
 		ac := genAsyncCase(c, r)
@@ -317,13 +356,15 @@ func fullDump() string {
 // inspected: when every goroutine inside library code is blocked on a synchronisation primitive and two dumps taken a
 // second apart show the same blocked set, nothing can ever release them - that state (not the elapsed time) is the
 // deadlock verdict. Anything else after the period is only inconclusive.
-func watched(c *fw.Ctx, in func() string, body func()) {
+func watched(c *fw.Ctx, in func() string, body func()) { watchedFor(c, 90*time.Second, in, body) }
+
+func watchedFor(c *fw.Ctx, period time.Duration, in func() string, body func()) {
 	done := make(chan struct{})
 	go func() {
 		defer close(done)
 		guard(c, in, body)
 	}()
-	deadline := time.NewTimer(90 * time.Second)
+	deadline := time.NewTimer(period)
 	defer deadline.Stop()
 	select {
 	case <-done:
